@@ -144,6 +144,12 @@ MUTANTS = [
     ("static-visit-raw-append", ["C22"], STATIC, r"self.visited.append\(path\)", "self.visited.append(addr)"),
     ("switch-retdiffs-from-key", ["C13", "C05"], SW, r"retdiffs = list\(rd for _, _, rd, _ in rets\)", "retdiffs = list(key for _, _, rd, _ in rets)"),
     ("static-compat-len", ["C34"], STATIC, r"and len\(address\) == 1", "and len(address) != 1"),
+    ("static-dispatch-polarity", ["C22"], STATIC, r"if primitive == trace_p:", "if primitive != trace_p:"),
+    ("env-write-dropvar-on-cell", ["C36", "C09"], "_src/core/compiler/interpreters/environment.py", r"if isinstance\(var, jc.DropVar\):", "if isinstance(cell, jc.DropVar):"),
+    ("env-write-stores-old", ["C36", "C09"], "_src/core/compiler/interpreters/environment.py", r"self.env\[var.count\] = cell", "self.env[var.count] = cur_cell"),
+    ("env-get-literal-item", ["C36", "C09"], "_src/core/compiler/interpreters/environment.py", r"return var.val", "return var.val.item() if hasattr(var.val, 'item') else var.val"),
+    ("static-visit-equality-only", ["C22"], STATIC, r"if seen\[:common\] == path\[:common\]:", "if seen == path:"),
+    ("vmap-leaf-unguarded", ["C11", "C04"], VMAP, r"if leaves:\n(\s+)return leaves\[0\]", "if True:\n\\1return leaves[0]"),
     ("subtrace-fold-order", ["C34", "C38"], GF, r"lambda tr, addr: tr.get_inner_trace\(addr\), addresses, self", "lambda tr, addr: tr.get_inner_trace(addr), reversed(addresses), self"),
 ]
 
